@@ -111,8 +111,15 @@ PROPERTIES = {
             "explanation": "bounded stand-in only so far: all pairs of feasible points of small configurators"},
     "C15": {"rt": ["rt.config:c15_bridge"], "level": "other", "assumptions": S_ALL,
             "explanation": "bounded stand-in only so far: recording and exact solvers"},
-    "C16": {"rt": ["rt.logic:c16_json_roundtrip", "rt.config:c16_configurator_json"], "level": "other", "assumptions": S_ALL,
-            "explanation": "bounded stand-in only so far"},
+    "C16": {"harness_modules": ["contracts.c16"],
+            "rt": ["rt.logic:c16_json_roundtrip", "rt.config:c16_configurator_json"], "level": "other",
+            "assumptions": S_ALL + ["json.dumps/json.loads is the identity on the emitted records (checked by the stand-in only)"],
+            "explanation": "deductive: for variable/AtLeast(explicit signs)/AtMost/All/Any/Xor/XNor/Imply the real to_json followed by the "
+                           "real from_json gives a node with the same truth function under every in-bounds interpretation, keeps "
+                           "an explicit id and emits none for a generated one, for every child count (compound children by the "
+                           "to_json/from_json contracts = induction hypothesis). bounded stand-ins: end-to-end through "
+                           "json.dumps/loads, Not, nested random models, and the configurator classes (cc.Any/cc.Xor/"
+                           "StingyConfigurator: defaults, default priorities, polyhedron)."},
     "C17": {"rt": ["rt.config:c17_b64"], "level": "other", "assumptions": S_ALL + ["A-pickle"],
             "explanation": "bounded stand-in only so far"},
     "C18": {"rt": ["rt.config:c18_add"], "level": "other", "assumptions": S_ALL,
